@@ -90,12 +90,7 @@ func (m *machine) call(ins instr, f func() error) (err error, panicked bool) {
 	if pan != nil {
 		// a panic in the middle of an evaluator method can leave its scratch buffers resized: never reuse it
 		m.e.resetEvaluator()
-		if ins.kind == "uint" && strings.Contains(fmt.Sprint(pan), "invalid value.(type)") {
-			// one root cause for every opcode: bignum.ToComplex has no case for the documented scalar type uint
-			m.fail("C06/scalar/uint/panic-in-bignum.ToComplex", "%s at %v: the documented operand type uint panics: %v", ins.name(), m.path, pan)
-		} else {
-			m.fail(m.sig(ins, "panic"), "%s at %v on state %s: panic: %v", ins.name(), m.path, m.r[0].brief(), pan)
-		}
+		m.fail(m.sig(ins, "panic"), "%s at %v on state %s: panic: %v", ins.name(), m.path, m.r[0].brief(), pan)
 		return nil, true
 	}
 	return err, false
@@ -286,10 +281,6 @@ func (m *machine) step(ins instr) int {
 			// constant added to every slot; real and imaginary parts are rounded to integers at scale s: error <= 2·(1/2)/s
 			n.v = cklib.Map1(a.v, func(p cklib.C) cklib.C { return pm(p, x.k.m) })
 			n.eps = a.eps + 2/a.sf()
-			if ins.dest != "inplace" && a.scale.Cmp(e.delta) != 0 {
-				// Add/Sub with a scalar never write opOut.Scale: a fresh opOut keeps its default scale
-				m.defect = "C06/Add-Sub/scalar/opOut-scale-not-propagated"
-			}
 		case "vec":
 			// vector encoded at the ciphertext's own scale and level
 			n.v = cklib.Map2(a.v, x.vec.m, pm)
@@ -471,11 +462,6 @@ func (m *machine) step(ins instr) int {
 			}
 			n.level = min(a.level, s.level)
 			n.degree = max(a.degree, s.degree)
-			if a.degree > s.degree || a.level > s.level {
-				// scalar / vector MulThenAdd does opOut.Resize(op0.Degree(), opOut.Level()): the accumulator is cut to
-				// op0's degree and keeps its own (higher) level instead of the common one
-				m.defect = "C06/MulThenAdd/const-operand/opOut-resized-to-op0-degree-at-own-level"
-			}
 			var xv cklib.Vec
 			var xabs float64
 			if x.class == "scalar" {
